@@ -21,6 +21,8 @@ PROTO = "sd.ServiceDiscoveryProtocol"
 
 
 def check(run, prog, tier):
+    from . import model as _model
+    _model.audit(run, prog, 'C07')
     run.explanation = (
         "check_received is a loop-free function: its complete path set is enumerated, every branch condition "
         "is kept as a formula over {record known?, stored flag, stored id, flag, id}; ids occur only in "
@@ -343,3 +345,21 @@ def check(run, prog, tier):
                         n += 1
             run.ob("P4", f"{rb.qual}:fanout->{attr}", n == 1 and p.outcome[0] in ("fall", "return"), loc(rb),
                    f"{attr}.reboot_detected(addr) reached {n}x on path [{p.describe()[:60]}]")
+
+    # ------------------------------------------------------------------ P5 the compared pair is the wire pair
+    # P1..P4 decide check_received on integers and booleans.  What it is handed is the decoded session id of the SOME/IP
+    # header and the decoded reboot flag of the SD header: both must be the wire values, decoded exactly (a wrapper type
+    # with its own ordering, a masked flag compare differently) - C01's and C02's reader tables
+    from .. import report
+    from . import C01
+    from .sdcodec import codec_keeps
+    with run.part("P5 wire values"):
+        sub = report.subrun(C01, "C01", prog, tier, run.seed)
+        n = 0
+        for o in sub.obs:
+            if o.rule == "L3" and "session_id<-position[" in o.construct:
+                n += 1
+                run.ob("P5", o.construct, o.ok, o.loc, o.msg + ("" if o.ok else " [the session ids compared by check_received are not the plain wire integers]"), o.detail, o.nontrivial)
+        run.floor("P5-session-id", n, 1)
+        codec_keeps(run, prog, tier, "P5", ("SOMEIPSDHeader.parse:flag-bits",), "the reboot flag compared by check_received is not the wire bit")
+
